@@ -93,6 +93,50 @@ add([(11, 1)], 1, 270, 0, TOKEN, 0, 3, "thorough")
 add([(11, 1)], 0, 0, 1, TOKEN, 0, 255, "thorough")
 
 
+# ---- systematic boundary grids (each job ~2 s): every pair of delta / length classes on both sides of 12/13 and 268/269
+B = [1, 12, 13, 14, 268, 269, 270]
+BQ = [1, 12, 13, 14, 269]          # quick subset
+FREE = 2049                        # elective option number without a length limit
+
+
+def grid():
+    # insert E between prev (absent or 7) and N: delta of the inserted option d_ins, new delta of the follower d_new
+    for d_new in B:
+        for d_ins in [0] + B:
+            for prev in (None, 7):
+                if d_ins == 0 and prev is None:
+                    continue
+                p = 0 if prev is None else prev
+                e = p + d_ins
+                n = e + d_new
+                base = ([(prev, 1)] if prev is not None else []) + [(n, 1)]
+                if prev == e and not True:
+                    continue
+                quick = prev is None and d_new in BQ and d_ins in BQ
+                if all(limit_ok(x, l) for x, l in base) and limit_ok(e, 1) and e != 16:
+                    add(base, 1, 1, 1 if (d_new + d_ins) % 2 else 0, INSERT, e, 1, "quick" if quick else "thorough")
+    # remove the first of two: deltas d1 (removed) and d2 (follower)
+    for d1 in B:
+        for d2 in B:
+            a1, a2 = d1, d1 + d2
+            for l1 in (0, 1):
+                base = [(a1, l1 if limit_ok(a1, l1) else 1), (a2, 1)]
+                if all(limit_ok(x, l) for x, l in base):
+                    add(base, 1, 0, (d1 + d2 + l1) % 2, REMOVE, a1, 0, "quick" if (d1 in BQ and d2 in BQ and l1 == 1) else "thorough")
+    # update: old length x new length
+    L = [0, 1, 12, 13, 14, 268, 269, 270]
+    LQ = [0, 12, 13, 14, 269]
+    for lo in L:
+        for ln in L:
+            add([(FREE, lo), (FREE + 20, 1)], 1, 0, (lo + ln) % 2, UPDATE, FREE, ln, "quick" if (lo in LQ and ln in LQ) else "thorough")
+    # token: old length x new length (RFC 8974 forms: <13, 13..268, >=269)
+    T = [0, 1, 8, 12, 13, 14, 15, 16, 268, 269, 270, 271]
+    TQ = [0, 8, 12, 13, 14, 15, 269]
+    for to in T:
+        for tn in T:
+            add([(11, 1)], 1, to, (to + tn) % 2, TOKEN, 0, tn, "quick" if (to in TQ and tn in TQ) else "thorough")
+
+
 LIMITS = {1: (0, 8), 3: (1, 255), 4: (1, 8), 5: (0, 0), 6: (0, 3), 7: (0, 2), 8: (0, 255), 9: (0, 255), 11: (0, 255), 12: (0, 2),
           14: (0, 4), 15: (0, 255), 16: (1, 1), 17: (0, 2), 20: (0, 255), 23: (0, 3), 27: (0, 3), 28: (0, 4), 35: (1, 1034),
           39: (1, 255), 60: (0, 4), 252: (0, 40), 258: (0, 1), 292: (0, 8)}
@@ -105,10 +149,18 @@ def limit_ok(n, l):
 
 def jobs():
     js = []
+    if not getattr(jobs, "_grid_done", False):
+        grid()
+        jobs._grid_done = True
+    seen = set()
     for (base, pl, tkl, form, edit, en, el, tier) in CASES:
+        key = (tuple(base), pl, tkl, form, edit, en, el)
+        if key in seen:
+            continue
+        seen.add(key)
         assert all(limit_ok(n, l) for n, l in base), ("catalogue violates an option length limit", base)
         assert edit in (REMOVE, TOKEN) or limit_ok(en, el), ("catalogue edit violates an option length limit", en, el)
-        d = ["K=%d" % len(base), "PL=%d" % pl, "TKL=%d" % tkl, "FORM=%d" % form, "EDIT=%d" % edit, "EN=%d" % en, "EL=%d" % el]
+        d = ["ENV_REALLOC_BYTELOOP", "K=%d" % len(base), "PL=%d" % pl, "TKL=%d" % tkl, "FORM=%d" % form, "EDIT=%d" % edit, "EN=%d" % en, "EL=%d" % el]
         for i, (n, l) in enumerate(base, 1):
             d += ["BN%d=%d" % (i, n), "BL%d=%d" % (i, l)]
         size = sum(l + 5 for _, l in base) + pl + tkl + el + 16
